@@ -335,6 +335,86 @@ def rule_r6(chk, facts):
         raise AnalysisBroken('only %d syntax obligations found for DASL' % n)
 
 
+def rule_r7(chk, facts):
+    chk.rule('C15-R7', 'DASL: (a) an address is wrapped into the address space with a mask or a modulus that is a power of two '
+             '- never "% (2^n - 1)", which sends the top address to 0; (b) a slot of NextAddresses[] is read only on paths that '
+             'have filled it (SimpleNextAddress() fills slot 0, "NextAddresses[NextAddressCount++] = x" the next one)',
+             min_instances=10)
+    n = 0
+    for un in ('deco68.c', 'deco4004.c', 'deco87c800.c', 'das.c'):
+        u = facts.unit(un)
+        for f in u.funcs.values():
+            if f.file != un:
+                continue
+            for b, i, ln, m in f.nodes():
+                if m[0] == 'b' and m[1] in ('%', '%=') and const_val(m[3]) is not None and const_val(m[3]) > 2:
+                    c = const_val(m[3])
+                    n += 1
+                    ok = (c & (c - 1)) == 0 or ((c + 1) & c) != 0
+                    chk.ob('C15-R7', '%s:%s:modulus-%#x@%d' % (un, f.name, c, ln), ok, f.loc(ln),
+                           'modulus %#x' % c if ok else
+                           'the address is reduced modulo %#x (= 2^n - 1): %#x becomes 0 and the tracer continues at the wrong '
+                           'address; the byte at the top of the address space is never disassembled' % (c, c))
+            # slot reads
+            reads = []
+            for b, i, ln, m in f.nodes():
+                if m[0] == 'i' and strip(m[1])[0] == 'm' and strip(m[1])[2].endswith('.NextAddresses') and const_val(m[2]) is not None:
+                    reads.append((b, i, ln, const_val(m[2]), m))
+            if not reads:
+                continue
+
+            def fills(ex):
+                k = 0
+                for m in walk_own(ex):
+                    if m[0] == 'call' and callee_name(m) == 'SimpleNextAddress':
+                        k = max(k, 1)
+                    if is_assign(m) and m[1] == '=' and strip(m[2])[0] == 'i' and strip(strip(m[2])[1])[0] == 'm' and \
+                            strip(strip(m[2])[1])[2].endswith('.NextAddresses'):
+                        k += 1
+                return k
+            # minimum number of filled slots on any path to each block (reset by NextAddressCount = 0)
+            INF = 99
+            cnt = {f.entry: 0}
+            work = [f.entry]
+            succ = f.succs()
+            outc = {}
+            it = 0
+            while work and it < 20000:
+                it += 1
+                b = work.pop()
+                c0 = cnt[b]
+                for ln2, ex in f.blocks[b]['elems']:
+                    if any(is_assign(m) and strip(m[2])[0] == 'm' and strip(m[2])[2].endswith('.NextAddressCount') and const_val(m[3]) == 0
+                           for m in walk_own(ex)):
+                        c0 = 0
+                    c0 = min(INF, c0 + fills(ex))
+                if outc.get(b) is not None and outc[b] <= c0:
+                    continue
+                outc[b] = c0
+                for t, l in succ.get(b, ()):
+                    if t is None or t < 0:
+                        continue
+                    if t not in cnt or cnt[t] > c0:
+                        cnt[t] = c0
+                        work.append(t)
+            for (b, i, ln, idx, m) in reads:
+                # a store target is not a read
+                if any(is_assign(x) and x[1] == '=' and strip(x[2]) == strip(m) for x in walk_own(f.blocks[b]['elems'][i][1])):
+                    continue
+                c0 = cnt.get(b, 0)
+                for j in range(i):
+                    ex = f.blocks[b]['elems'][j][1]
+                    c0 = min(INF, c0 + fills(ex))
+                n += 1
+                ok = c0 > idx
+                chk.ob('C15-R7', '%s:%s:NextAddresses[%d]@%d' % (un, f.name, idx, ln), ok, f.loc(ln),
+                       'slot filled on every path' if ok else
+                       'NextAddresses[%d] is read on a path on which only %d slot(s) were filled (the retrieval of the target '
+                       'may have failed): the disassembly names a label at an arbitrary address and differs between runs' % (idx, c0))
+    if n < 10:
+        raise AnalysisBroken('only %d modulus / slot-read sites found in the disassemblers' % n)
+
+
 def run(chk, facts, info):
     rule_6800(chk, facts)
     rule_4004(chk, facts)
@@ -345,6 +425,7 @@ def run(chk, facts, info):
     from .c14 import page_reference_rule
     page_reference_rule(chk, facts, 'C15-R5')
     rule_r6(chk, facts)
+    rule_r7(chk, facts)
     chk.note('Decided: opcode-by-opcode agreement of assembler and disassembler tables for 6800/6802 and 4004/4040, '
              'well-formed sign-extension/wrap thresholds, branch target formula. Not decided: the 87C800 disassembler '
              '(code-driven), control-flow tracing, label synthesis, the round trip itself.')
